@@ -128,6 +128,7 @@ type SimSource struct {
 	frag        plan.Frag
 	rng         *plan.Rand
 	bounds      []int
+	bi          int
 	faults      []plan.RFault
 	eofWithData bool
 	yields      int
@@ -210,13 +211,11 @@ func (s *SimSource) Read(p []byte) (int, error) {
 		n = 1 + s.rng.Intn(len(p))
 	case "bound":
 		// up to the next structural boundary
-		for _, b := range s.bounds {
-			if b > s.Pos {
-				if b-s.Pos < n {
-					n = b - s.Pos
-				}
-				break
-			}
+		for s.bi < len(s.bounds) && s.bounds[s.bi] <= s.Pos {
+			s.bi++
+		}
+		if s.bi < len(s.bounds) && s.bounds[s.bi]-s.Pos < n {
+			n = s.bounds[s.bi] - s.Pos
 		}
 	}
 	if n > len(p) {
